@@ -90,7 +90,12 @@ def gen(seed, index):
             ops.append(["revert"])
         elif x < 0.73:
             ops.append(["clock_jump", r.choice([-86400, -3600, 3600, 86400 * 30])])
-        elif x < 0.80:
+        elif x < 0.76:
+            # a build that asks for a kernel name the source does not define: it must fail, and must not leave anything
+            # behind that exempts the entry from the dependency check
+            ops.append(["build_wrong_name", r.choice(["file", "file", "string"])])
+            continue
+        elif x < 0.82:
             # an editor process rewrites a header WHILE a build is running (seeded interleaving of the two processes);
             # that build may see the old or the new contents, the next one must see the new
             ops.append(["edit_during_build", r.choice(HEADERS), r.randrange(len(BODIES)), r.choice(["file", "file", "string"]),
@@ -122,6 +127,8 @@ def systematic():
                     init = {"a.h": [1, hdr == "c.h"], "b.h": [2, False], "c.h": [3, False]}
                     ops = [["build", kind], ["set", hdr, 5], ["build", kind], ["revert"], ["build", kind],
                            ["toggle_include", "b.h"], ["build", kind], ["set", "c.h", 4], ["build", kind]]
+                    if hdr == "a.h" and inproc == 1:
+                        ops = [["build_wrong_name", kind]] + ops
                     out.append({"seed": 2000 + len(out), "mode": "Serial" if len(out) % 3 else "OpenMP", "init": init, "ops": ops,
                                 "raw": False, "angle": angle, "inproc": inproc})
     return out
@@ -213,6 +220,29 @@ def execute(scn, sb):
                 break
             clock_off[0] += op[1] * 10 ** 9
             continue
+        elif op[0] == "build_wrong_name":
+            if pending and not run_pending():
+                break
+            if scn.get("raw"):
+                continue
+            spec = job_spec(op[1], sb, False)
+            spec["kernel"] = "k_does_not_exist"
+            spec["run"] = False
+            if angle:
+                spec["props"]["okl"] = {"include_paths": [sb.proj]}
+            g = ps.run_group(sb, seed, [ps.VProcSpec({"mode": mode, "jobs": [spec]})], strategy=("rtb", 0, 1),
+                             clock0=max(0, acc["steps"] * 10 ** 6 + clock_off[0] + 10 ** 15), maxsteps=MAXSTEPS, timeout=300)
+            acc["steps"] += g.gsteps
+            logs.extend(g.log)
+            probes["builds_asking_for_a_missing_kernel_name"] = probes.get("builds_asking_for_a_missing_kernel_name", 0) + 1
+            o = g.outputs[0][0] if g.outputs[0] else {"status": "none"}
+            if g.vp[0]["sig"]:
+                violations.append(["crash", "build asking for a kernel name the source does not define died with signal %d" % g.vp[0]["sig"]])
+                break
+            if o.get("status") == "ok":
+                violations.append(["missing-exception", "a build asking for a kernel name the source does not define succeeded"])
+                break
+            continue
         elif op[0] == "edit_during_build":
             if pending and not run_pending():
                 break
@@ -292,7 +322,7 @@ def signature(scn, out):
         # non-OKL kernels record no dependencies at all: any edit of an included header is missed,
         # whatever the edit was; one finding, not one per edit kind
         return "%s|stale-output|okl=off" % PROP
-    kinds = sorted(set(op[0].replace("edit_during_build", "edit-during-build") for op in scn["ops"] if op[0] != "build"))
+    kinds = sorted(set(op[0].replace("edit_during_build", "edit-during-build").replace("build_wrong_name", "wrong-kernel-name") for op in scn["ops"] if op[0] != "build"))
     return "%s|%s|%s|okl=%s|edits=%s%s" % (PROP, v[0], msg, "off" if scn.get("raw") else "on", "+".join(kinds),
                                            ("|angle-include" if scn.get("angle") else "") +
                                            ("|several-builds-in-one-process" if scn.get("inproc", 1) > 1 else ""))
